@@ -981,6 +981,23 @@ class SX:
                 if r is not None:
                     return [x if isinstance(x, Outcome) else Outcome(x, 'fall') for x in r]
             raise CannotDecide(f'loop at line {s.lineno} in {frame["fn"].name} is outside the recognised idioms')
+        if isinstance(s, ast.Delete) and all(isinstance(t, ast.Attribute) for t in s.targets):
+            # `del obj.attr`: the attribute is gone (a store of the <deleted> marker, so that the effect is visible to the rules)
+            cur = [st]
+            outs_ = []
+            for t in s.targets:
+                nxt = []
+                for s_ in cur:
+                    for r in self.eval_x(t.value, s_, frame):
+                        if isinstance(r, Outcome):
+                            outs_.append(r)
+                            continue
+                        if not isinstance(r[1], Ov):
+                            raise CannotDecide(f'del of an attribute of {r[1]!r}')
+                        for o in self.store_attr(r[1], t.attr, Unk('<deleted>'), r[0], frame, s.lineno):
+                            (nxt if o.kind == 'fall' else outs_).append(o.state if o.kind == 'fall' else o)
+                cur = nxt
+            return outs_ + [Outcome(s_, 'fall') for s_ in cur]
         if isinstance(s, ast.Break):
             return [Outcome(st, 'break', None, s.lineno)]
         if isinstance(s, ast.Continue):
@@ -3307,6 +3324,10 @@ class SX:
         if name == 'hasattr':
             obj, attr = args
             if isinstance(obj, Ov) and isinstance(attr, Sv):
+                if (obj.path, attr.s) in st.heap and self.model.find_member(obj.cls or '', attr.s) is None:
+                    # an attribute set (or deleted) on the object earlier on this path
+                    v_ = st.heap[(obj.path, attr.s)]
+                    return Bv(not (isinstance(v_, Unk) and v_.text == '<deleted>'))
                 if obj.cls and obj.exact:
                     has = self.model.find_member(obj.cls, attr.s) is not None
                     return Bv(has)
